@@ -60,6 +60,8 @@ def plan(tier, seed):
         sh.append(['NEG', lo, hi])
     for lo, hi in chunks(82, 2):
         sh.append(['EDIT', lo, hi])
+    for lo, hi in chunks(82, 4):
+        sh.append(['S0', lo, hi])
     for lo, hi in chunks(50625, 1024):
         sh.append(['G4', lo, hi, (seed % 16) if tier == 'quick' else None])
     n3 = len(_k3_one_atom())
@@ -145,6 +147,15 @@ def run_shard(shard, tier, seed, acc):
                 Kl = lib.to_kripke(k)
                 for g in (forms if miss is not None else forms[:2]):
                     check_one(k, Kl, g, acc, audit=False)
+        return
+    if kind == 'S0':
+        gs = spaces.path_by_size(0, spaces.LEAVES2) + spaces.path_by_size(1, spaces.LEAVES2)
+        for k in (_reps2()[shard[1]:shard[2]] + spaces.kripke_reps(3, ('p',))[shard[1]::82]):
+            for S0 in ([0], [k.n - 1], list(range(k.n))):
+                Kl = lib.to_kripke(k, S0=S0)
+                for g in gs:
+                    check_one(k, Kl, g, acc, audit=False)
+        acc.sample({'S0': [0], 'note': 'states unreachable from S0 must still be answered'})
         return
     if kind == 'NEG':
         forms = spaces.negated_path()
